@@ -16,6 +16,17 @@ func main() {
 	g := newGen(*seed)
 	o := newOut(*out)
 	defer func() {
+		// a panic that escapes a family is a crash of the library on the case noted last: write the
+		// case down for the replay, then let the process die with the panic
+		if r := recover(); r != nil {
+			if noted.kind != "" {
+				os.WriteFile(tmpPath("current-case.txt"), []byte(fmt.Sprintf("%s %s in=%x\npanic: %v\n", noted.kind, noted.opts, noted.input, r)), 0o644)
+			}
+			o.Close()
+			panic(r)
+		}
+	}()
+	defer func() {
 		o.Close()
 		fmt.Fprintf(os.Stdout, "{\"family\":%q,\"lines\":%d,\"dist\":%s}\n", *fam, o.lines, o.StatsJSON())
 	}()
@@ -64,4 +75,15 @@ func main() {
 		fmt.Fprintln(os.Stderr, "unknown family", *fam)
 		os.Exit(2)
 	}
+}
+
+// noted: the call the harness is about to make into the library (kept by reference: no copying, no
+// formatting unless the process is about to die).
+var noted struct {
+	kind, opts string
+	input      []byte
+}
+
+func noteCase(kind, opts string, input []byte) {
+	noted.kind, noted.opts, noted.input = kind, opts, input
 }
